@@ -989,3 +989,16 @@ Lemma run_returns_nonvacuous :
   no_overlap pop_tree reqs = true /\ no_pop_in_wildcard pop_tree U_pop reqs = true /\
   covers L_pop U_pop (requested pop_tree DictForm reqs) = true.
 Proof. vm_compute. repeat split. Qed.
+
+(* ------------------------------------------------------------------------------------------ paths inside edges *)
+(* when the state row holds every variable at its slot pos (the layout is C04's), the derivative the edges produce
+   reads exactly the variables their paths name: source, target and the path-mapped extra source *)
+Theorem edge_paths_same_variable : forall (V : Type) (vadd vmul : V -> V -> V) (vzero : V) L row (val : path -> V) es tv,
+  (forall e, In e es -> let '(s, t, w, r) := e in read_slot V vzero L row s = val s /\ read_slot V vzero L row r = val r) ->
+  edge_deriv_impl V vadd vmul vzero L row es tv = edge_deriv_spec V vadd vmul vzero val es tv.
+Proof.
+  intros V vadd vmul vzero L row val es tv. unfold edge_deriv_impl, edge_deriv_spec, edge_deriv.
+  induction es as [|[[[s t] w] r] es IH]; intro H; [reflexivity|]. cbn [fold_right].
+  destruct (H (s, t, w, r) (or_introl eq_refl)) as [Hs Hr]. rewrite Hs, Hr.
+  rewrite IH by (intros e He; apply H; right; exact He). reflexivity.
+Qed.
